@@ -459,6 +459,9 @@ class NPShim:
 
     nansum = sum
 
+    def nanmean(self, x, axis=None):
+        return self.mean(x, axis=axis)
+
     def prod(self, x, axis=None):
         return np.prod(to_obj(unwrap(x)), axis=axis)
 
@@ -673,10 +676,19 @@ class Interp:
         return None
 
     def pick(self, which, u, v):
+        u, v = P._to_rat(u), P._to_rat(v)
         d = (u - v).const()
         if d is not None:
             return (u if d >= 0 else v) if which == "max" else (u if d <= 0 else v)
-        r = self.ask(Cond(which, u, v), kind=int)
+        r = None
+        if self.user_oracle is not None:
+            c = Cond(which, u, v)
+            c.text = self.test_text[-1] if self.test_text else None
+            r = self.user_oracle(c, self)
+        if r is None:
+            # uninterpreted but symmetric: min(a, b) == min(b, a)
+            a, b = sorted((u, v), key=lambda x: repr(x))
+            return P.fn_atom(which, a, b)
         return u if r == 0 else v
 
     # -- running
@@ -1269,6 +1281,20 @@ class Interp:
                 return lambda: v
             if name == "mean":
                 return lambda axis=None: self.np.mean(v, axis=axis)
+            if name in ("min", "max"):
+                def red(axis=None, which=name):
+                    arr = v if axis is None else np.moveaxis(v, axis, 0)
+                    if axis is None:
+                        items = list(arr.flat)
+                        out = items[0]
+                        for x in items[1:]:
+                            out = self.pick(which, out, x)
+                        return out
+                    out = arr[0].copy() if is_arr(arr[0]) else arr[0]
+                    for k in range(1, arr.shape[0]):
+                        out = rat_map(lambda a_, b_: self.pick(which, a_, b_), out, arr[k])
+                    return out
+                return red
             raise Unsupported("ndarray.%s" % name)
         if isinstance(v, Rat):
             if name == "real":
